@@ -147,6 +147,9 @@ func recordsVal(recs []*fasta.Fasta) Val {
 // ---- kinds -------------------------------------------------------------------------
 
 var kFastaWrite = register(&Kind{Name: "fasta_write",
+	// compared with the model: the bytes written and MarshalText's result, not the
+	// way Write splits them into calls
+	Project: func(out Val) Val { return L(joinChunks(out.At(0)), out.At(1)) },
 	Impl: func(in Val) Val {
 		name0, seq0 := in.At(0).Bytes(), in.At(1).Bytes()
 		fa := &fasta.Fasta{Name: slices.Clone(name0), Sequence: slices.Clone(seq0)}
@@ -178,31 +181,35 @@ var kFastaWrite = register(&Kind{Name: "fasta_write",
 		if out.K != 'l' || len(out.L) != 2 || out.L[0].K != 'l' {
 			return "Write/MarshalText: " + clip(out.String())
 		}
-		calls := out.At(0).BytesList()
-		if len(calls) == 0 || !bytes.Equal(calls[0], append(append([]byte{'>'}, name...), '\n')) {
-			return "first chunk written is not '>' name LF"
-		}
-		var body, all []byte
-		all = append(all, calls[0]...)
-		for i, c := range calls[1:] {
-			all = append(all, c...)
-			if len(c) == 0 || c[len(c)-1] != '\n' {
-				return fmt.Sprintf("sequence line %d does not end with LF", i)
+		all := joinChunks(out.At(0)).Bytes()
+		if nameOK(name) && seqOK(seq) {
+			// the lines of the output (the property speaks of lines, not of Write calls)
+			calls := bytes.SplitAfter(all, []byte("\n"))
+			if len(calls) > 0 && len(calls[len(calls)-1]) == 0 {
+				calls = calls[:len(calls)-1]
+			} else {
+				return "output does not end with LF"
 			}
-			l := c[:len(c)-1]
-			if len(l) == 0 || len(l) > 80 {
-				return fmt.Sprintf("sequence line %d has %d bytes", i, len(l))
+			if len(calls) == 0 || !bytes.Equal(calls[0], append(append([]byte{'>'}, name...), '\n')) {
+				return "first line written is not '>' name LF"
 			}
-			if i < len(calls)-2 && len(l) != 80 {
-				return fmt.Sprintf("sequence line %d (not the last) has %d bytes, want 80", i, len(l))
+			var body []byte
+			for i, c := range calls[1:] {
+				l := c[:len(c)-1]
+				if len(l) == 0 || len(l) > 80 {
+					return fmt.Sprintf("sequence line %d has %d bytes", i, len(l))
+				}
+				if i < len(calls)-2 && len(l) != 80 {
+					return fmt.Sprintf("sequence line %d (not the last) has %d bytes, want 80", i, len(l))
+				}
+				body = append(body, l...)
 			}
-			body = append(body, l...)
-		}
-		if !bytes.Equal(body, seq) {
-			return "sequence lines do not concatenate to the sequence"
-		}
-		if want := (len(seq) + 79) / 80; len(calls)-1 != want {
-			return fmt.Sprintf("%d sequence lines for %d bytes, want %d", len(calls)-1, len(seq), want)
+			if !bytes.Equal(body, seq) {
+				return "sequence lines do not concatenate to the sequence"
+			}
+			if want := (len(seq) + 79) / 80; len(calls)-1 != want {
+				return fmt.Sprintf("%d sequence lines for %d bytes, want %d", len(calls)-1, len(seq), want)
+			}
 		}
 		m := out.At(1)
 		if !isOk(m) {
